@@ -425,6 +425,9 @@ async def scenario(spec, cancel_at):
     wire = make_wire(tr, net)
     ecu = ECU(wire, timeout=TIMEOUT, max_retry=0)
     ecu.mutex = make_lock(tr)
+    if spec.get("believed_session"):
+        ecu.state.session = spec["believed_session"]
+        ecu.state.security_access_level = spec.get("believed_level")
 
     async def traced_sleep(delay, result=None):
         i = tr.tid()
@@ -663,6 +666,13 @@ def gen_specs(ctx):
                 did[0] = 0x1200
                 specs.append({"tasks": [("req", 0.0, [call(a, 2)]), ("req", 0.05, [call(b, 0)]), ("reconnect", 0.1)],
                               "worker": rc == "C", "rc": rc})
+    # the same with a client that has left the default session earlier (state carried between calls: hooks that run on a reconnect and
+    # look at the tracked session / security level run while the reconnecting caller holds the client)
+    for a in ("error", "eof", "penderr"):
+        for rc in ("o", "oC", "C"):
+            did[0] = 0x1280
+            specs.append({"tasks": [("req", 0.0, [call(a, 2)]), ("req", 0.05, [call("imm", 0)]), ("reconnect", 0.1), ("req", 0.3, [call("imm", 0)])],
+                          "worker": rc != "C", "rc": rc, "believed_session": 3, "believed_level": 1 if rc == "o" else None})
     ctx.exhaustive_parts.append("every script of the widened alphabet (slow reply, end of stream, busy, connection loss while pending, foreign reply, "
                                 "write fault ConnectionError / TimeoutError) x every old script x both arrival orders; connection loss with retry x "
                                 "reconnect outcome (refused, timeout, OSError, second one refused) x competing caller x explicit reconnect()")
